@@ -360,6 +360,11 @@ class World:
             # (and judged) as a hang or a missing output, deterministically
             self.stats['pending_task_destroyed'] += 1
             return
+        if exc is not None and type(exc).__name__ == 'ExpectedLateRaise':
+            # the `late_raise` effect (dsim/prog.py): a result-less MPyC coroutine failed on purpose; asyncio reports the
+            # unretrieved exception whenever the task object is collected
+            self.stats['expected_late_raise_reported'] += 1
+            return
         if exc is not None and type(exc).__name__ == 'RunTimeout':
             # the batch driver's wall-clock alarm fired inside a callback: a harness condition, not an exception of
             # the program; re-raised from run() after this iteration
